@@ -96,7 +96,7 @@ Proof. exact dividends_nonneg. Qed.
 Print Assumptions C21_c_division_agrees.
 
 (* non-vacuity: source 10x10 in 3x3 tiles, target 12x12 in 4x4 tiles, a 5x6 window from (2,1)
-   to (3,2): accepted, general path, 2x3 row/column intervals; and an aligned 8x8 case on the
+   to (3,2): accepted, general path, 3 row intervals x 3 column intervals; and an aligned 8x8 case on the
    optimized path *)
 Definition ex_general : cfg := mkCfg (mkDim 3 4 5 2 3) (mkDim 3 4 6 1 2) 4 4 3 3 1 1.
 Definition ex_reshuffle : cfg := mkCfg (mkDim 4 4 8 0 4) (mkDim 4 4 5 4 0) 3 3 3 3 2 1.
@@ -104,7 +104,7 @@ Example C21_example :
   wf ex_general /\ use_reshuffle ex_general = false /\
   map (fun s => (s_t s, s_y s, s_src s, s_dst s, s_len s)) (row_segs ex_general)
     = [(0, 0, 2, 3, 1); (1, 1, 0, 0, 3); (1, 2, 0, 3, 1)] /\
-  length (copies ex_general) = 12%nat /\ length (cells ex_general) = 30%nat /\
+  length (copies ex_general) = 9%nat /\ length (cells ex_general) = 30%nat /\
   wf ex_reshuffle /\ use_reshuffle ex_reshuffle = true /\
   map (fun s => (s_t s, s_y s, s_src s, s_dst s, s_len s)) (col_segs ex_reshuffle)
     = [(0, 1, 0, 0, 4); (1, 2, 0, 0, 1)] /\
